@@ -177,6 +177,9 @@ pub struct Gen<'a> {
     nested_floor: usize,
     pending_ctx: Vec<usize>,
     in_call: Vec<u32>,
+    /// spans the random operations must leave alone, and threads that must not exit
+    reserved: HashSet<u32>,
+    no_exit: HashSet<usize>,
     /// per thread: flat index of the probe taken before each open frame was pushed
     probe_stack: Vec<Vec<Option<usize>>>,
 }
@@ -201,6 +204,8 @@ impl<'a> Gen<'a> {
             nested_floor: 0,
             pending_ctx: vec![],
             in_call: vec![],
+            reserved: HashSet::new(),
+            no_exit: HashSet::new(),
         }
     }
 
@@ -252,7 +257,7 @@ impl<'a> Gen<'a> {
     /// choose up to n parents whose combined items have pairwise distinct trace ids (unless the
     /// profile allows parents in one trace)
     fn pick_parents(&mut self, n: usize) -> Vec<u32> {
-        let alive = self.m().alive_spans();
+        let alive: Vec<u32> = self.m().alive_spans().into_iter().filter(|s| !self.reserved.contains(s)).collect();
         let mut cand = alive.clone();
         self.rng.shuffle(&mut cand);
         let mut out = vec![];
@@ -281,7 +286,7 @@ impl<'a> Gen<'a> {
     /// Generate one operation for thread t in the current state (None: nothing applicable).
     pub fn gen_op(&mut self, t: usize, nested: bool) -> Option<Op> {
         let w = &self.pf.w;
-        let alive = self.m().alive_spans();
+        let alive: Vec<u32> = self.m().alive_spans().into_iter().filter(|s| !self.reserved.contains(s)).collect();
         let frames = self.m().threads[t].frames.len();
         let top_is_local = matches!(self.m().threads[t].frames.last(), Some(Frame::Local { .. }));
         let has_alive = !alive.is_empty();
@@ -328,7 +333,7 @@ impl<'a> Gen<'a> {
             if has_alive { w.elapsed } else { 0 },
             if !self.ctx_ops.is_empty() { w.rootfromctx } else { 0 },
             w.sleep,
-            if frames == 0 && !nested { w.exit } else { 0 },
+            if frames == 0 && !nested && !self.no_exit.contains(&t) { w.exit } else { 0 },
             w.anew,
             if !adapters.is_empty() && self.depth_call < 2 { w.acall } else { 0 },
             if !adapters.is_empty() { w.adrop } else { 0 },
@@ -681,6 +686,70 @@ impl<'a> Gen<'a> {
             let t = self.rng.below(self.prog.nthreads);
             self.push(t, Op::Finish { span: s });
         }
+    }
+
+    /// A program around a full-queue episode: ordinary operations, then one thread floods its
+    /// command ring while the collector is held back, then issues operations of every kind during
+    /// the episode (their non-forced commands may be dropped), then the collector drains, then the
+    /// same thread runs a complete fresh trace, which must be delivered completely.
+    pub fn generate_overload(mut self) -> Program {
+        let n1 = self.rng.range(0, 14);
+        for _ in 0..n1 {
+            let t = self.rng.below(self.prog.nthreads);
+            if let Some(op) = self.gen_op(t, false) {
+                self.push(t, op);
+            }
+        }
+        let t = self.rng.below(self.prog.nthreads);
+        let f = new_span_label();
+        let ftid = self.fresh_tid();
+        self.push(t, Op::Root { l: f, trace_id: ftid, parent: 1, sampled: true, np: 0, k0: 0 });
+        self.reserved.insert(f);
+        // signals parked while the ring is full are only guaranteed while the thread lives
+        self.no_exit.insert(t);
+        let hold_from = self.prog.ops.len();
+        // 64 sends of an operation may be interleaved with cycles; the rest refills the ring
+        let extra = self.rng.range(1, 200) as u32;
+        self.push(t, Op::Fill { span: f, n: 10_240 + 64 + extra });
+        let n2 = self.rng.range(3, 18);
+        for _ in 0..n2 {
+            // mostly the flooded thread; others keep working normally
+            let tt = if self.rng.chance(4, 5) { t } else { self.rng.below(self.prog.nthreads) };
+            if let Some(op) = self.gen_op(tt, false) {
+                self.push(tt, op);
+            }
+        }
+        let hold_to = self.prog.ops.len();
+        self.prog.no_cycle.push((hold_from + 1, hold_to));
+        let n3 = self.rng.range(2, 10);
+        for _ in 0..n3 {
+            let tt = self.rng.below(self.prog.nthreads);
+            if let Some(op) = self.gen_op(tt, false) {
+                self.push(tt, op);
+            }
+        }
+        // make the thread send again (replays whatever is still parked), wait for the drain
+        self.push(t, Op::AddEvent { span: f, e: new_event(), np: 0, k0: 0 });
+        let mark = self.prog.ops.len();
+        self.prog.drain_points.push(mark);
+        self.push(t, Op::AddEvent { span: f, e: new_event(), np: 0, k0: 0 });
+        // a fresh trace after the queue has drained
+        let r = new_span_label();
+        let rtid = self.fresh_tid();
+        self.push(t, Op::Root { l: r, trace_id: rtid, parent: 2, sampled: true, np: 1, k0: new_keys(1) });
+        self.push(t, Op::Guard { span: r });
+        self.push(t, Op::LEnter { l: new_local_label(), np: 0, k0: 0 });
+        self.push(t, Op::LAddEvent { e: new_event(), np: 0, k0: 0 });
+        self.push(t, Op::Pop);
+        self.push(t, Op::Pop);
+        let c = new_span_label();
+        self.push(t, Op::Child { l: c, parents: vec![r], single: true, np: 0, k0: 0 });
+        self.push(t, Op::AddProps { span: r, n: 1, k0: new_keys(1) });
+        self.push(t, Op::Finish { span: c });
+        self.push(t, Op::Finish { span: r });
+        self.reserved.clear();
+        self.close_out();
+        self.prog
     }
 
     pub fn generate(mut self) -> Program {
